@@ -9,12 +9,18 @@ READY = True
 META = {
     "technique": "Lean 4 proof (model of ops::coerce/add/sub/mul/int_div/rem/pow/neg/int_as_value over the four integer representations: exact-or-error, total on the signed 128-bit range, width independent, Euclid law) + differential run of the model against the real engine + exact-integer/rational oracle",
     "category": "proof",
-    "text": "Kernel-checked theorems about the Lean model of minijinja's integer arithmetic (every representation U64/I64/U128/I128, every well-formed payload): a successful + - * // % ** or unary minus returns the mathematically exact integer, the operation succeeds whenever operands and result fit the signed 128-bit range (divisor non-zero, exponent in [0,2^32)), the outcome depends only on the mathematical operands and not on the stored width, and // and % satisfy q*b + r = a with 0 <= r < |b|; the float remainder algorithm (fmod plus |b| when negative) is proved to be the Euclidean remainder on scaled integers. The model is tied to /repo by running ~2*10^5 (quick) operand pairs from the boundary zoo and boundary-biased random pairs, written as literals and as i64/u64/i128/u128/f64 context values, through Expression::eval and template rendering and through the compiled Lean model; an independent Python oracle (unbounded ints, Fractions) adjudicates exactness, totality, width independence, the Euclid law for floats and exact int/float comparison.",
+    "text": "The full statement is FALSE on the pinned code at exactly one operand, proved as `C08_counterexample : ¬ C08_full` (unary minus of 2^127 stored as u128 returns +2^127; kept as a recorded known finding because an existing snapshot pins it); everything else is proved as `C08_holds_partial` with that operand as an explicit hypothesis of the unary-minus exactness clause only. Kernel-checked theorems about the Lean model of minijinja's integer arithmetic (every representation U64/I64/U128/I128, every well-formed payload): a successful + - * // % ** or unary minus returns the mathematically exact integer, the operation succeeds whenever operands and result fit the signed 128-bit range (divisor non-zero, exponent in [0,2^32)), the outcome depends only on the mathematical operands and not on the stored width, and // and % satisfy q*b + r = a with 0 <= r < |b|; the float remainder algorithm (fmod plus |b| when negative) is proved to be the Euclidean remainder on scaled integers. The model is tied to /repo by running ~2*10^5 (quick) operand pairs from the boundary zoo and boundary-biased random pairs, written as literals and as i64/u64/i128/u128/f64 context values, through Expression::eval and template rendering and through the compiled Lean model; an independent Python oracle (unbounded ints, Fractions) adjudicates exactness, totality, width independence, the Euclid law for floats and exact int/float comparison.",
     "design_ref": "DESIGN.md §3 C08",
     "level_note": "Trusted: Lean kernel; hand transcription of ops.rs (coerce, int_as_value, add, sub, mul, int_div, rem, pow, neg) and of i128::try_from(Value) into MJ/Model/Num.lean, validated differentially on every generated integer case; Rust's i128::checked_* are modelled by their documented contract (exact result or None). Float arithmetic (IEEE division/rounding in f64::div_euclid, the rounded addition in rem_euclid, `as f64` casts) and int/float comparison are not modelled in Lean: they are covered by the exact rational oracle only.",
 }
 
 P63, P64, P127, P128 = 1 << 63, 1 << 64, 1 << 127, 1 << 128
+# Recorded known finding (KNOWN_FINDINGS.jsonl): unary minus of 2^127 stored as u128 yields +2^127.
+# A template spells i128::MIN as `-170141183460469231731687303715884105728`, i.e. exactly that
+# negation, so an operand written `lit:-2^127` reaches the operator as the u128 +2^127.
+KNOWN_NEG_SITE = "neg:u128:2^127"
+DEFECT_LIT = "lit:-%d" % P127
+DEFECT_AS = "u128:%d" % P127
 OPS_BIN = ("add", "sub", "mul", "fdiv", "rem", "pow")
 OPS_CMP = ("lt", "le", "gt", "ge", "eq", "ne")
 
@@ -115,6 +121,9 @@ def check_int(r, case, op, A, B, impl):
         got = int(res[2:])
         if not defined:
             r.oracle_failure(case, f"returned {got} where no integer result exists", f"int:{op}:missing-error:{reg}")
+        elif op == "neg" and a == P127 and got == P127:
+            # the one recorded defect: ops::neg's special case returns the positive u128 again
+            r.oracle_failure(case, f"-(2^127 stored as u128) returned +{got}, exact result is {exact}", KNOWN_NEG_SITE)
         elif exact is None or got != exact:
             ex = "a number outside 128 bits" if exact is None else exact
             r.oracle_failure(case, f"returned {got}, exact result is {ex}", f"int:{op}:wrong-value:{reg}")
@@ -208,27 +217,69 @@ def py_spec(case):
     return "x:%d:%s" % (exact, "req" if int_required(op, a, b, exact) else "opt")
 
 
-def judge(r, case, impl, width):
+class _Collect:
+    """stand-in for Run that only collects oracle failures"""
+    def __init__(self):
+        self.fails = []
+
+    def oracle_failure(self, case, what, site=None):
+        self.fails.append((case, what, site))
+
+
+def judge_core(case, impl):
+    """-> (stream, op, outcome, width_key or None, failures); no side effects"""
+    c = _Collect()
     f = case.split(" ")
     op = f[0]
     A = parse_operand(f[1])
     B = parse_operand(f[2]) if len(f) > 2 else None
     allint = A[0] == "i" and (B is None or B[0] == "i")
+    key = None
     if op in OPS_CMP:
         stream = "cmp-int" if allint else "cmp-float"
-        out = check_cmp(r, case, op, A, B, impl)
+        out = check_cmp(c, case, op, A, B, impl)
     elif allint:
         stream = "int"
-        out = check_int(r, case, op, A, B, impl)
+        out = check_int(c, case, op, A, B, impl)
         key = (op, A[1], B[1] if B else None)
-        res = impl.partition("|render=")[0]
-        prev = width.setdefault(key, (res, case))
-        if prev[0] != res:
-            r.oracle_failure(case, f"outcome {res} differs from {prev[0]} for the same mathematical operands written as `{prev[1]}`", f"int:{op}:width-dependent")
     else:
         stream = "float-euclid"
-        out = check_float_euclid(r, case, op, A, B, impl)
-    return stream, op, out, allint
+        out = check_float_euclid(c, case, op, A, B, impl)
+    return stream, op, out, key, c.fails
+
+
+def explained_by_neg_defect(case, impl):
+    """the case has an operand spelled `-2^127` and the engine's answer is exactly right for the
+    operand the recorded defect produces instead (+2^127 as u128)"""
+    if DEFECT_LIT not in case.split(" ")[1:]:
+        return None
+    alt = " ".join(DEFECT_AS if t == DEFECT_LIT else t for t in case.split(" "))
+    res = judge_core(alt, impl)
+    return res if all(site == KNOWN_NEG_SITE for _, _, site in res[4]) else None
+
+
+def judge(r, case, impl, width):
+    stream, op, out, key, fails = judge_core(case, impl)
+    if fails:
+        alt = explained_by_neg_defect(case, impl)
+        if alt is not None:
+            # wrong only because the operand `-2^127` was evaluated to +2^127: the known site, once
+            r.oracle_failure(case, "operand -170141183460469231731687303715884105728 is evaluated to +2^127 "
+                             "(unary minus of the u128 literal); " + fails[0][1], KNOWN_NEG_SITE)
+            key, fails = alt[3], []
+    for c, what, site in fails:
+        r.oracle_failure(c, what, site)
+    if key is not None:
+        res = impl.partition("|render=")[0]
+        prev = width.setdefault(key, (res, case, impl))
+        if prev[0] != res:
+            # two spellings of the same operands disagree; attributable to the recorded defect only
+            # if one of them spells -2^127 as a literal and behaves exactly as that defect predicts
+            if explained_by_neg_defect(case, impl) is not None or explained_by_neg_defect(prev[1], prev[2]) is not None:
+                r.oracle_failure(case, f"outcome {res} differs from {prev[0]} for `{prev[1]}` because the literal -2^127 is evaluated to +2^127", KNOWN_NEG_SITE)
+            else:
+                r.oracle_failure(case, f"outcome {res} differs from {prev[0]} for the same mathematical operands written as `{prev[1]}`", f"int:{op}:width-dependent")
+    return stream, op, out, key is not None
 
 
 def run(r):
